@@ -971,6 +971,33 @@ def d5(ctx, rep):
             clsq = prog.resolve(gt.module, d_) if isinstance(d_, ast.AST) else None
         return prog.classes.get(clsq)
 
+    # dispatch through a lookup table `{TreeTypes.CENTER: CenterTree, ...}[member]()` defined at module level and subscripted in get_tree
+    table = None
+    if not member_atoms:
+        for st_ in gt.module.tree.body:
+            if isinstance(st_, ast.Assign) and len(st_.targets) == 1 and isinstance(st_.targets[0], ast.Name) and isinstance(st_.value, ast.Dict) and st_.value.keys \
+                    and all(isinstance(k_, ast.Attribute) and (prog.resolve(gt.module, k_.value) or '') == tenum.qualname for k_ in st_.value.keys):
+                used = [x for x in walk_no_nested(gt.node) if isinstance(x, ast.Subscript) and isinstance(x.value, ast.Name) and x.value.id == st_.targets[0].id]
+                called = [x for x in used if isinstance(getattr(x, '_parent', None), ast.Call) and x._parent.func is x]
+                from ..idioms import single_def as _sd
+                via_local = [x for x in used if isinstance(getattr(x, '_parent', None), ast.Assign) and isinstance(x._parent.targets[0], ast.Name)
+                             and any(isinstance(c_, ast.Call) and isinstance(c_.func, ast.Name) and c_.func.id == x._parent.targets[0].id for c_ in walk_no_nested(gt.node))]
+                if called or via_local:
+                    table = (st_, {k_.attr: v_ for k_, v_ in zip(st_.value.keys, st_.value.values)})
+    if table is not None:
+        for m in tenum.attrs:
+            cons = f'TreeTypes.{m}'
+            v_ = table[1].get(m)
+            c = prog.classes.get(prog.resolve(gt.module, v_) or '') if v_ is not None else None
+            if v_ is None:
+                rep.bad('D5.dispatch', gt, table[0], f'the dispatch table of get_tree has no entry for TreeTypes.{m}: get_tree raises KeyError for it', construct=cons)
+            elif c is None:
+                rep.undecided('D5.dispatch', gt, table[0], f'what the dispatch table holds for TreeTypes.{m} is not a project class in sight', construct=cons)
+            else:
+                tt = c.attrs.get('tree_type')
+                rep.check('D5.dispatch', gt, table[0], isinstance(tt, ast.Attribute) and tt.attr == m, f'TreeTypes.{m} -> {c.name} (lookup table)',
+                          f'for TreeTypes.{m} the dispatch table of get_tree holds {c.name}, whose tree_type is {short(tt) if tt is not None else None}', construct=cons)
+        return
     for m in tenum.attrs:
         cons = f'TreeTypes.{m}'
         if not member_atoms:
